@@ -7,4 +7,6 @@ CONSTANTS
   DeleteByIdentity = TRUE
   Janitors = 2
   Destroys = 1
+  Compactions = 1
+  ClosedIsDone = TRUE
 INVARIANTS Readable LockExclusive
